@@ -26,7 +26,7 @@ for d in $src/C*-[mb]*; do
   if [ -n "${SEEDPAR_ENGINE_WIDE:-}" ]; then   # every check served by the engine that serves the change's property
     case $(engine_of $prop) in
       vx-netk) checks="C06 C13 C16 C17 C19";; vx-fsx) checks="C07 C10 C18";;
-      *) checks="C01 C02 C03 C04 C05 C08 C09 C11 C12 C14 C15 C20";; esac
+      *) [ "$SEEDPAR_ENGINE_WIDE" = "netk-fsx" ] || checks="C01 C02 C03 C04 C05 C08 C09 C11 C12 C14 C15 C20";; esac
   fi
   for c in $checks; do echo "$id $p $c"; done
 done > $base/jobs.txt
